@@ -36,7 +36,7 @@ FU = 'utils.func_utils'
 
 
 def run(ctx: Ctx):
-  for r in (r16, r1, r2, r3, r4, r5, r6, r7, r8, r9, r10, r11, r12, r13, r14, r15):
+  for r in (r17, r16, r1, r2, r3, r4, r5, r6, r7, r8, r9, r10, r11, r12, r13, r14, r15):
     ctx.guard(r)
 
 
@@ -948,11 +948,37 @@ def r16(ctx: Ctx):
   ctx.floor(rule, 1, n)
 
 
+def r17(ctx: Ctx):
+  rule = 'R-C17-17'
+  ctx.rule(rule, '"a missing cached object raises the dedicated error" — and never resolves to ANOTHER object: handles are keyed by'
+           ' id alone, so the per-process id counter must not wrap within the life of a process. The module-level'
+           ' `IncrementId(id_len=<n>)` of lazy_fns.py is built with a literal length of at least 8 bytes (2**64 ids); a'
+           ' 2- or 4-byte counter hands the id of a live or evicted handle to a new object after 2**16 / 2**32 creations')
+  mi = ctx.repo.module(LF)
+  n = 0
+  for st in mi.tree.body:
+    if isinstance(st, ast.Assign) and isinstance(st.value, ast.Call) and unparse(st.value.func) == 'IncrementId':
+      n += 1
+      k = kwarg(st.value, 'id_len') or (st.value.args[0] if st.value.args else None)
+      anchor = next(iter(mi.functions.values()))
+      what = f'lazy_fns.{unparse(st.targets[0])}: the id counter is at least 8 bytes wide'
+      if isinstance(k, ast.Constant) and isinstance(k.value, int) and k.value >= 8:
+        ctx.ok(rule, anchor, what, st)
+      else:
+        ctx.fail(rule, anchor, what,
+                 f'`{unparse(st)}`: the counter wraps after 2**({unparse(k) if k is not None else "?"}*8) objects — a later handle gets the id'
+                 ' of an earlier one, an evicted handle dereferences to the newer object instead of raising LazyObjectMissingError',
+                 node=st)
+  ctx.floor(rule, 1, n)
+
+
 from mlmverif.selfcheck import B, OK  # noqa: E402
 
 _L = 'chainables/lazy_fns.py'
 _F = 'utils/func_utils.py'
 VARIANTS = [
+    B('id-counter-four-bytes', 'chainables/lazy_fns.py',
+      "_increment_id = IncrementId(id_len=8)", "_increment_id = IncrementId(id_len=4)", 'R-C17-17'),
     OK('makers-key-through-a-helper-free-local', 'chainables/lazy_fns.py',
        "    self.data[repr(type_)] = maker", "    self.data[repr(type_)] = maker\n    del maker"),
     OK('hash-through-a-local-tuple', 'chainables/lazy_fns.py',
